@@ -176,7 +176,15 @@ def materialise(p: dict, root: Path, rnd: random.Random, outside: Path | None = 
     for en in p.get("licfiles", []):
         path = root / "LICENSES" / en["rel"]
         _mkparents(path)
-        path.write_text(en.get("content", "Licence text of " + en["name"] + "\n"))
+        content = en.get("content", "Licence text of " + en["name"] + "\n")
+        if outside is not None and sum(map(ord, en["rel"])) % 5 == 2:
+            # a licence text may be a symbolic link to a regular file (a shared COPYING, say): it provides the identifier all the same
+            tgt = outside / ("licence-text-" + en["rel"].replace("/", "_"))
+            tgt.parent.mkdir(parents=True, exist_ok=True)
+            tgt.write_text(content)
+            os.symlink(tgt, path)
+        else:
+            path.write_text(content)
     for t in p.get("tomls", []):
         import tomlkit
         tables = []
